@@ -171,7 +171,7 @@ def run_property(pid, tier, seed, only=None):
     frames = []
     if hasattr(mod, "FRAMES") and not only:
         from pyv import frames as fr
-        frames = fr.run(mod.FRAMES, pid)
+        frames = fr.run(mod.FRAMES() if callable(mod.FRAMES) else mod.FRAMES, pid)
     out["frames"] = frames
     # ------------------------------------------------ B: bounded run-time contracts
     b = BoundedCtx(pid, tier, seed)
@@ -298,7 +298,10 @@ def report(out, seed):
             n_dis += 1
             by_backend["frame"] += 1
             continue
-        if fr["status"] == "undecided":
+        if fr["status"] == "candidate" and fr["name"] in expected:
+            # proved on the reference tree, now the analysis finds a write into the argument: reported with the chain
+            fr["status"] = "violated"
+        if fr["status"] in ("undecided", "candidate"):
             undecided.append("%s: %s" % (fr["name"], fr["reason"]))
             continue
         k = match_known(known, pid, fr["name"], fr.get("witness"))
@@ -448,6 +451,9 @@ def write_baseline(out):
                 exp[r["name"]] = {"back_end": r["backend"], "tier": "P"}
             elif r["name"] in exp:
                 del exp[r["name"]]
+    for fr in out.get("frames", []):
+        if fr["status"] == "proved":
+            exp[fr["name"]] = {"back_end": "frame", "tier": "F"}
     json.dump(exp, open(p, "w"), indent=0, sort_keys=True)
 
 
